@@ -26,7 +26,25 @@ V = 'db::zone::validation::'
 LA = ['Found', 'Cname', 'Referral', 'NxDomain', 'WrongZone']
 
 
+def _dnf(g):
+    """A guard list in which a computed boolean (`true-when{A | B & C} not in [0]`) is replaced by each of its arms:
+    the site is reached under (other guards and A) or (other guards and B and C)."""
+    outs = [[]]
+    for x in g:
+        m = re.match(r'^true-when\{(.*)\} not in \[0\]$', x)
+        if m and 'true-when{' not in m.group(1):
+            arms = [a.split(' & ') for a in m.group(1).split(' | ')]
+            outs = [o + a for o in outs for a in arms]
+        else:
+            outs = [o + [x] for o in outs]
+    return outs
+
+
 def sites(fn):
+    return [(what, b, g2) for what, b, g in _sites(fn) for g2 in _dnf(g)]
+
+
+def _sites(fn):
     out = []
     for b, bl in enumerate(fn.blocks):
         if bl['cleanup']:
